@@ -276,6 +276,50 @@ func decodeReal(m msgs.Msg, ver int16, frame []byte) (out string) {
 	return fmt.Sprintf("%d %s", corr, msgs.Text(reflect.ValueOf(msg).Elem(), nil))
 }
 
+// applySite walks v in declaration order (through the first element of every slice) and, at the idx-th
+// slice / []byte / string site, applies a variant: 0 = nil slice / nil []byte / empty string,
+// 1 = empty but non-nil slice / []byte.  It reports whether the site exists and the variant applies.
+func applySite(v reflect.Value, idx *int, variant int) (found, applied bool) {
+	t := v.Type()
+	if t == recordSetType || t == rawRecordSetType {
+		return false, false
+	}
+	switch t.Kind() {
+	case reflect.String:
+		if *idx == 0 {
+			if variant == 0 {
+				v.SetString("")
+				return true, true
+			}
+			return true, false
+		}
+		*idx--
+	case reflect.Slice:
+		if *idx == 0 {
+			if variant == 0 {
+				v.Set(reflect.Zero(t))
+			} else {
+				v.Set(reflect.MakeSlice(t, 0, 0))
+			}
+			return true, true
+		}
+		*idx--
+		if t.Elem().Kind() != reflect.Uint8 && v.Len() > 0 {
+			return applySite(v.Index(0), idx, variant)
+		}
+	case reflect.Struct:
+		for i := 0; i < t.NumField(); i++ {
+			if t.Field(i).PkgPath != "" {
+				continue
+			}
+			if f, a := applySite(v.Field(i), idx, variant); f {
+				return f, a
+			}
+		}
+	}
+	return false, false
+}
+
 func generate() {
 	r := gen.New()
 	w := bufio.NewWriter(os.Stdout)
@@ -297,31 +341,54 @@ func generate() {
 				}
 				msg := m.New()
 				f.fill(reflect.ValueOf(msg).Elem(), 0)
-				corr := int32(f.integer(32))
-				cid := ""
-				if k > 0 {
-					cid = f.str()
-					if len(cid) > 200 {
-						cid = cid[:200]
+				emitCase(w, i, m, ver, f, msg, k > 0)
+			}
+			// systematically: every slice / []byte / string field nil, empty-but-non-nil (and non-empty: the
+			// small full value above), one site at a time on the small full value
+			for site := 0; ; site++ {
+				exists := false
+				for variant := 0; variant < 2; variant++ {
+					f := &filler{r: r, payloads: msgs.Payloads{}, version: ver, mode: 1}
+					msg := m.New()
+					f.fill(reflect.ValueOf(msg).Elem(), 0)
+					idx := site
+					found, applied := applySite(reflect.ValueOf(msg).Elem(), &idx, variant)
+					exists = exists || found
+					if applied {
+						emitCase(w, i, m, ver, f, msg, true)
 					}
 				}
-				text := msgs.Text(reflect.ValueOf(msg).Elem(), f.payloads)
-				args := fmt.Sprintf("%d %d %d %s %s", i, ver, corr, gen.Hex([]byte(cid)), text)
-				frame, err := encodeReal(m, ver, corr, cid, msg)
-				if err != nil {
-					fmt.Fprintf(w, "enc %s\terr\n", args)
-					continue
+				if !exists {
+					break
 				}
-				fmt.Fprintf(w, "enc %s\t%s\n", args, hex.EncodeToString(frame))
-				// the reference frame for the same value is requested from the oracle and decoded in a second pass
-				fmt.Fprintf(w, "spec %s\t-\n", args)
-				if m.IsRequest && m.Override {
-					continue // ReadRequest selects the type by api key: the override type is never decoded
-				}
-				fmt.Fprintf(w, "dec %d %d %s\t%s\n", i, ver, hex.EncodeToString(frame), decodeReal(m, ver, frame))
 			}
 		}
 	}
+}
+
+func emitCase(w *bufio.Writer, i int, m msgs.Msg, ver int16, f *filler, msg protocol.Message, withClientID bool) {
+	corr := int32(f.integer(32))
+	cid := ""
+	if withClientID {
+		cid = f.str()
+		if len(cid) > 200 {
+			cid = cid[:200]
+		}
+	}
+	text := msgs.Text(reflect.ValueOf(msg).Elem(), f.payloads)
+	args := fmt.Sprintf("%d %d %d %s %s", i, ver, corr, gen.Hex([]byte(cid)), text)
+	frame, err := encodeReal(m, ver, corr, cid, msg)
+	if err != nil {
+		fmt.Fprintf(w, "enc %s\terr\n", args)
+		return
+	}
+	fmt.Fprintf(w, "enc %s\t%s\n", args, hex.EncodeToString(frame))
+	// the reference frame for the same value is requested from the oracle and decoded in a second pass
+	fmt.Fprintf(w, "spec %s\t-\n", args)
+	if m.IsRequest && m.Override {
+		return // ReadRequest selects the type by api key: the override type is never decoded
+	}
+	fmt.Fprintf(w, "dec %d %d %s\t%s\n", i, ver, hex.EncodeToString(frame), decodeReal(m, ver, frame))
 }
 
 func readCases(path string) [][3]string {
